@@ -76,7 +76,7 @@ func serverHarness(rc *RunCtx) {
 			p.method = "add"
 			fields = []rawField{{1, thrift.I32, int32(i)}, {2, thrift.I32, int32(3)}}
 			p.ret = int32(i + 3)
-			p.outcome = []string{"ok", "ok", "undeclared", "appex"}[tp.Intn("req", 4)]
+			p.outcome = []string{"ok", "ok", "undeclared", "appex", "transporterr", "protoerr"}[tp.Intn("req", 6)]
 			r.wantFields = []int16{0}
 		case 1:
 			p.method = "basePing"
@@ -117,11 +117,18 @@ func serverHarness(rc *RunCtx) {
 			p.oneway = true
 			fields = []rawField{{1, thrift.STRING, "f" + genString(tp, "req", 5)}}
 			r.kind = "oneway"
+			// a oneway whose handler fails: whether the server says so on the wire is its
+			// business, but nothing that follows may suffer
+			p.outcome = []string{"ok", "ok", "undeclared", "appex", "transporterr", "protoerr"}[tp.Intn("req", 6)]
 		case 5:
 			if tp.Intn("req", 2) == 0 {
 				p.method = "noSuchMethod"
 				fields = []rawField{{1, thrift.STRING, "x"}, {2, thrift.STRUCT, []rawField{{1, thrift.I32, int32(1)}}}}
 				r.kind = "unknown-method"
+				if tp.Intn("req", 3) == 0 {
+					p.oneway = true // a oneway-typed message for a method the server does not have
+					rc.Fault("unknown-method-oneway")
+				}
 			} else {
 				p.method = "add"
 				fields = []rawField{{1, thrift.I32, int32(1)}, {2, thrift.I32, int32(2)}}
@@ -130,8 +137,11 @@ func serverHarness(rc *RunCtx) {
 			}
 		}
 		switch p.outcome {
-		case "undeclared":
+		case "undeclared", "transporterr", "protoerr":
 			p.msg = "boom" + strconv.Itoa(i)
+			if p.outcome != "undeclared" {
+				rc.Fault("handler-returns-" + p.outcome)
+			}
 		case "appex":
 			p.appType = []int32{0, 3, 5, 6, 42}[tp.Intn("req", 5)]
 			p.msg = "app" + strconv.Itoa(i)
@@ -175,7 +185,7 @@ func serverHarness(rc *RunCtx) {
 			rc.Fault("unknown-method")
 		case r.kind == "malformed":
 			r.wantType, r.wantApp = thrift.EXCEPTION, thrift.PROTOCOL_ERROR
-		case p.outcome == "undeclared":
+		case p.outcome == "undeclared" || p.outcome == "transporterr" || p.outcome == "protoerr":
 			r.wantType, r.wantApp = thrift.EXCEPTION, thrift.INTERNAL_ERROR
 			rc.Fault("handler-undeclared-error")
 		case p.outcome == "appex":
@@ -186,6 +196,8 @@ func serverHarness(rc *RunCtx) {
 		}
 		if r.kind != "unknown-method" {
 			env.plans[r.tag] = p
+		} else if p.oneway {
+			env.plans["oneway:"+r.tag] = p
 		}
 		reqs = append(reqs, r)
 		byOpid[r.opid] = r
@@ -330,7 +342,7 @@ func serverHarness(rc *RunCtx) {
 						rec := httptest.NewRecorder()
 						simrt.Pre(siteD)
 						h(rec, req)
-						if rec.Code == 413 && r.limit == "10" && r.kind != "oneway" {
+						if rec.Code == 413 && r.limit == "10" && (r.kind != "oneway" || r.outcome != "ok") {
 							r.got413 = true
 							continue
 						}
@@ -402,11 +414,18 @@ func serverHarness(rc *RunCtx) {
 				continue
 			}
 			where := fmt.Sprintf("request %s (%s %s outcome=%s, %s)", r.opid, r.kind, r.method, r.outcome, key)
-			if r.kind == "oneway" {
+			if r.kind == "oneway" && r.outcome == "ok" {
 				if len(r.replies) != 0 {
 					rc.Violate("C14", "oneway-answered", key, where)
 				}
 				continue
+			}
+			if r.kind == "oneway" || (r.kind == "unknown-method" && env.plans["oneway:"+r.tag] != nil) {
+				// a failed oneway / a oneway for an unknown method: silence is fine, and so is one
+				// well-formed exception; what is checked is everything around it
+				if len(r.replies) == 0 {
+					continue
+				}
 			}
 			if r.kind == "malformed" && (setting == "http") {
 				continue // reported as an HTTP error status or a PROTOCOL_ERROR reply; both are "rejected with an error"
